@@ -16,6 +16,7 @@ ENGINES = {
     "seqp": {"shards_thorough": 14},
     "seqx": {"shards_thorough": 14},
     "seqrb": {"shards_thorough": 14},
+    "deep": {"shards_thorough": 2},
 }
 
 PROPS = {
